@@ -18,7 +18,7 @@ from .interp import (Ctx, Frame, PyRaise, _Return, _Break, _Continue, PathEnd, I
 from .modules import Repo, node_hash
 from .values import (S, VOpt, VQty, VTime, VDelta, VEnum, SEnum, VRec, VRef, HObj, HList, HDict,
                      HSet, SymSeq, SymSet, SymMap, FuncRef, ClassRef, ModRef, ExtRef,
-                     BoundBuiltin, Opaque, Unsupported, fresh_name, reset_fresh, GhostSeq, KeySetVal, HKeySet)
+                     BoundBuiltin, Opaque, Unsupported, fresh_name, reset_fresh, GhostSeq, KeySetVal, HKeySet, HOptDict)
 
 
 class FunctionReport:
@@ -293,11 +293,11 @@ class Engine:
             keysets.enumeration(self, ctx.it, ks)   # finite; also what model extraction lists
             return ref
         if k == "dictopt":
-            d = HDict()
+            d = HOptDict()
             for key, vshape in shape.entries.items():
                 kn = repr(key).replace(" ", "")
-                if key in shape.always or ctx.branch(z3.Bool(f"{name}.has[{kn}]"), f"{name} has key {kn}"):
-                    d.items[key] = self.make_sym(ctx, vshape, f"{name}[{kn}]")
+                has = True if key in shape.always else z3.Bool(f"{name}.has[{kn}]")
+                d.entries[key] = [has, self.make_sym(ctx, vshape, f"{name}[{kn}]")]
             return ctx.alloc(d)
         if k == "setseq":
             n = z3.Int(name + ".len")
@@ -496,6 +496,13 @@ class Engine:
         if isinstance(v, VRef):
             heap = ctx.old[1] if ctx.old is not None else ctx.heap
             h = heap.get(v.addr) or ctx.heap[v.addr]
+            if isinstance(h, HOptDict):
+                out = []
+                for k, e in h.entries.items():
+                    has = e[0] if isinstance(e[0], bool) else z3.is_true(self.zval(model, e[0]))
+                    if has:
+                        out.append([self.val_json(ctx, None, k, model), self.val_json(ctx, None, e[1], model)])
+                return {"dict": out}
             if isinstance(h, HKeySet):
                 sq = h.val.enum
                 if sq is None:
@@ -786,6 +793,7 @@ class Engine:
         oshape = c.self_shape if objn == "self" else c.shapes.get(objn)
         if oshape is not None:
             shape = oshape.fields.get(attr)
+        shape = getattr(c, "havoc_shapes", {}).get(path, shape)
         h = ctx.heap[ref.addr]
         if shape is not None:
             h.fields[attr] = self.make_sym(ctx, shape, fresh_name(path))
@@ -795,6 +803,7 @@ class Engine:
     # ------------------------------------------------------------------ verifying one function
     def verify_function(self, c, regimes=None) -> FunctionReport:
         rep = FunctionReport(getattr(c, "key", c.target))
+        self.checked = set()
         t_start = time.time()
         self.current = c
         self.current_report = rep
@@ -1005,6 +1014,11 @@ class Engine:
                     same = False
             elif isinstance(h0, HKeySet):
                 if h0.val is not h1.val:
+                    same = False
+            elif isinstance(h0, HOptDict):
+                if set(h0.entries) != set(h1.entries) or any(
+                        h0.entries[k][0] is not h1.entries[k][0] or h0.entries[k][1] is not h1.entries[k][1]
+                        for k in h0.entries):
                     same = False
         ctx.check(f"{short}::frame.pure", same, kind="frame")
 
